@@ -198,6 +198,13 @@ func (engine) Generate(r *lib.Rng, tier string, i int) any {
 		c.Concurrent = r.Chance(2, 3)
 	}
 	c.Stream = r.Chance(1, 4)
+	// the other two entries of a compiled graph: Transform (stream in, stream out) and Collect
+	// (stream in, value out)
+	if c.Stream && r.Chance(1, 3) {
+		c.Stream, c.Call = false, "transform"
+	} else if !c.Stream && r.Chance(1, 8) {
+		c.Call = "collect"
+	}
 	// error path: one critical section updates the state and then returns an error (the run
 	// must fail, the lock must be released: sibling nodes still get the state)
 	if r.Chance(1, 12) {
@@ -295,6 +302,41 @@ func (engine) Generate(r *lib.Rng, tier string, i int) any {
 				c.Concurrent = false
 			}
 			c.Again = r.Chance(1, 3)
+		}
+	}
+	// self-interrupting nodes: a lambda whose first execution returns compose.InterruptAndRerun
+	// after some of its ProcessState calls; the run is resumed from the checkpoint and the node
+	// executed again (pre-handler included) with the zero input. Not inside loops (the rounds of
+	// a loop and the two attempts would both count as executions), not with an injected failure.
+	noLoop, noFail := true, true
+	for _, gr := range c.Forest {
+		noLoop = noLoop && gr.Loop == nil
+		for _, n := range gr.Nodes {
+			noFail = noFail && n.Fail == 0
+		}
+	}
+	if noLoop && noFail && !c.mustRefuse() && !c.mustFail() && r.Chance(1, 6) {
+		type pos struct{ gi, ni int }
+		var lams []pos
+		for gi, gr := range c.Forest {
+			for ni, n := range gr.Nodes {
+				if n.Sub < 0 {
+					lams = append(lams, pos{gi, ni})
+				}
+			}
+		}
+		for k := r.Range(1, 2); k > 0 && len(lams) > 0; k-- {
+			x := lams[r.Intn(len(lams))]
+			n := &c.Forest[x.gi].Nodes[x.ni]
+			n.Rerun = 1 + r.Intn(n.PS+1)
+		}
+		if c.Interrupt == nil && len(lams) > 0 {
+			// a checkpoint store and id are needed; no interrupt-before/after nodes
+			c.Interrupt = &IntSpec{Graph: 0, Modifier: r.Chance(1, 2)}
+			if r.Chance(2, 3) {
+				c.Runs, c.Concurrent = 1, false
+			}
+			c.Again = r.Chance(1, 4)
 		}
 	}
 	return c
